@@ -1,5 +1,6 @@
-(* Bosonic — property statements shared by C01 (bosonic_<op>_is_phase_space, gauss_bosonic_agree_<op>),
-   C05 (bosonic_spectators_<op>) and C07 (bosonic_symmetric, bosonic_weights_untouched).
+(* Bosonic — property statements shared by C01 (bosonic_<op>_is_phase_space), C05 (bosonic_spectators_<op>) and
+   C07 (bosonic_symmetric, bosonic_weights_untouched).  Nothing in this file depends on the model of the Gaussian
+   simulator; the corollaries C01_gauss_bosonic_agree_* are in Properties/BosonicAgree.v (C01 only).
    Statements only: each theorem is proved by `exact <lemma>`; one Print Assumptions per theorem.
 
    The model (coq/Bosonic/Model.v) is a hand model of the Gaussian-operation part of
@@ -19,17 +20,14 @@
      (Bosonic/Sum.v: sumn); the theorems collapse it (Sum.row_collapse) for every n and every target position. *)
 From Coq Require Import Arith List Bool ZArith.
 Import ListNotations.
-From SFV Require Import Base.Num Base.PhaseSpace Gen.GaussCirc C01.GaussPhaseSpace.
-From SFV Require Import Bosonic.Sum Bosonic.Model Bosonic.Index Bosonic.Proofs Bosonic.Physical Bosonic.Agree.
+From SFV Require Import Base.Num Base.PhaseSpace.
+From SFV Require Import Bosonic.Sum Bosonic.Model Bosonic.Index Bosonic.Proofs Bosonic.Physical.
 
 Section Statements.
 Variable K : Type.
 Variables (k0 k1 : K) (kadd kmul ksub : K -> K -> K) (kopp : K -> K).
 Hypothesis Kring : ring_theory k0 k1 kadd kmul ksub kopp (@eq K).
 Notation NK := (mkNum k0 k1 kadd kmul ksub kopp).
-Notation GNK := (GaussPhaseSpace.NK K k0 k1 kadd kmul ksub kopp).
-Notation wf := (GaussPhaseSpace.wf K k0 k1 kadd kmul ksub kopp).
-Notation agree := (Agree.agree K k0 k1 kadd kmul ksub kopp).
 Notation good_targets := Proofs.good_targets.
 Notation Bexp := (Proofs.Bexp K k0).
 Notation op_wf := (Physical.op_wf K).
@@ -158,50 +156,6 @@ Theorem C01_bosonic_reorder_roundtrip : forall n (S : nat -> nat -> K) i j, i < 
   xpxp_to_xxpp n (xxpp_to_xpxp n S) i j = S i j /\ xxpp_to_xpxp n (xpxp_to_xxpp n S) i j = S i j.
 Proof. exact (Proofs.reorder_roundtrip K). Qed.
 
-(* ------------------------------------------------------------------ Gaussian simulator = bosonic simulator
-   agree s b w : the GaussianModes state s (model regenerated from gaussiancircuit.py, Gen/GaussCirc.v) and weight
-   component w of the BosonicModes state b have the same number of modes and the same xp read-out (covariance
-   and means).  Each theorem: agreement before the operation implies agreement after it. *)
-Theorem C01_gauss_bosonic_agree_rotation : forall er ei k s (b : bst) w,
-  k < nlen s -> wf s -> er * er = k1 - ei * ei -> agree s b w ->
-  agree (GaussCirc.phase_shift GNK (mkC er ei) k s) (Model.phase_shift GNK er ei k b) w.
-Proof. exact (Agree.agree_rotation K k0 k1 kadd kmul ksub kopp Kring). Qed.
-
-Theorem C01_gauss_bosonic_agree_squeeze : forall er ei sh ch k s (b : bst) w,
-  k < nlen s -> wf s -> er * er = k1 - ei * ei -> ch * ch = k1 + sh * sh -> agree s b w ->
-  agree (GaussCirc.squeeze GNK (mkC er ei) sh ch k s) (Model.squeeze GNK er ei sh ch k b) w.
-Proof. exact (Agree.agree_squeeze K k0 k1 kadd kmul ksub kopp Kring). Qed.
-
-(* through the backend wrappers: GaussianBackend.beamsplitter(theta, phi) calls GaussianModes.beamsplitter(-theta, -phi)
-   (inputs st' = sin(-theta), ct' = cos(-theta), cp' + i sp' = exp(-i phi)); BosonicBackend.beamsplitter(theta, phi) calls
-   BosonicModes.beamsplitter(theta, phi) (inputs ct, st, cp, sp).  Hypotheses 5-8 are the parity identities of sin / cos. *)
-Theorem C01_gauss_bosonic_agree_beamsplitter : forall ct st cp sp ct' st' cp' sp' k l s (b : bst) w,
-  k < nlen s -> l < nlen s -> k <> l -> wf s ->
-  st' = - st -> ct' = ct -> cp' = cp -> sp' = - sp ->
-  cp * cp = k1 - sp * sp -> ct * ct = k1 - st * st -> agree s b w ->
-  agree (GaussCirc.beamsplitter GNK (mkC cp' sp') st' ct' k l s) (Model.beamsplitter GNK ct st cp sp k l b) w.
-Proof. exact (Agree.agree_beamsplitter K k0 k1 kadd kmul ksub kopp Kring). Qed.
-
-Theorem C01_gauss_bosonic_agree_displace : forall r er ei k s (b : bst) w,
-  k < nlen s -> agree s b w ->
-  agree (GaussCirc.displace GNK r (mkC er ei) k s) (Model.displace GNK r er ei k b) w.
-Proof. exact (Agree.agree_displace K k0 k1 kadd kmul ksub kopp Kring). Qed.
-
-Theorem C01_gauss_bosonic_agree_loss : forall T qq k s (b : bst) w,
-  k < nlen s -> wf s -> qq * qq = T -> agree s b w ->
-  agree (GaussCirc.loss GNK qq k s) (Model.loss GNK T qq k b) w.
-Proof. exact (Agree.agree_loss K k0 k1 kadd kmul ksub kopp Kring). Qed.
-
-Theorem C01_gauss_bosonic_agree_thermal_loss : forall T nb qq k s (b : bst) w,
-  k < nlen s -> wf s -> qq * qq = T -> agree s b w ->
-  agree (GaussCirc.thermal_loss GNK T nb qq k s) (Model.thermal_loss GNK T nb qq k b) w.
-Proof. exact (Agree.agree_thermal_loss K k0 k1 kadd kmul ksub kopp Kring). Qed.
-
-Theorem C01_gauss_bosonic_agree_init_thermal : forall nb k s (b : bst) w,
-  k < nlen s -> wf s -> agree s b w ->
-  agree (GaussCirc.init_thermal GNK nb k s) (Model.init_thermal GNK nb k b) w.
-Proof. exact (Agree.agree_init_thermal K k0 k1 kadd kmul ksub kopp Kring). Qed.
-
 (* ================================================================== C05: spectators
    Every mean / covariance entry (raw backend indices i, j < 2n) whose mode i/2, j/2 is not a target is unchanged —
    for every weight.  One theorem per operation (instances of the theorem over the operation datatype), the general
@@ -281,30 +235,21 @@ Theorem C07_bosonic_weights_untouched_program : forall (prog : list bop) (s : bs
 Proof. exact (Physical.run_weights_untouched K k0 k1 kadd kmul ksub kopp). Qed.
 End Statements.
 
-(* ------------------------------------------------------------------ the hypotheses are satisfiable (over Z):
-   two-mode vacuum on both simulators agree, the Gaussian vacuum is well-formed, cos 0 / sin 0 satisfy the identities *)
-Definition ZN := GaussPhaseSpace.NK Z 0%Z 1%Z Z.add Z.mul Z.sub Z.opp.
-Definition gvac : st Z := mkSt 2 (fun _ _ => mkC 0%Z 0%Z) (fun _ _ => mkC 0%Z 0%Z) (fun _ => mkC 0%Z 0%Z).
+(* ------------------------------------------------------------------ the hypotheses are satisfiable:
+   a two-mode, one-weight vacuum over Z; descending targets [1; 0] are good targets; the identity covariance is symmetric;
+   every operation on it is well-formed in the sense of op_wf *)
 Definition bvac : @bst Z := mkB 2 1 (fun _ => 1%Z) (fun _ _ => 0%Z) (fun _ i j => if Nat.eqb i j then 1%Z else 0%Z).
 Example hypotheses_satisfiable :
-  GaussPhaseSpace.wf Z 0%Z 1%Z Z.add Z.mul Z.sub Z.opp gvac /\
-  Agree.agree Z 0%Z 1%Z Z.add Z.mul Z.sub Z.opp gvac bvac 0 /\
-  (1 * 1 = 1 - 0 * 0)%Z /\ Proofs.good_targets 2 [1; 0] /\
-  (forall w, Physical.msym Z 4 (bcovs bvac w)).
+  Proofs.good_targets (bn bvac) [1; 0] /\ (forall w, Physical.msym Z (2 * bn bvac) (bcovs bvac w)) /\
+  Physical.op_wf Z (OBs 1%Z 0%Z 1%Z 0%Z 1 0) (bn bvac) /\ Physical.sym_ok Z (OChannel 1 [1] (fun _ _ => 0%Z) (fun _ _ => 0%Z)).
 Proof.
-  split; [|split; [|split; [|split]]].
-  - unfold GaussPhaseSpace.wf, GaussPhaseSpace.hermitian, GaussPhaseSpace.symmetric. repeat split; intros; reflexivity.
-  - split; [reflexivity|split].
-    + intros q1 q2 a c Ha Hc.
-      destruct a as [|[|a]]; [| |exfalso; simpl in Ha; apply (Nat.nlt_0_r a); do 2 apply Nat.succ_lt_mono; exact Ha];
-      (destruct c as [|[|c]]; [| |exfalso; simpl in Hc; apply (Nat.nlt_0_r c); do 2 apply Nat.succ_lt_mono; exact Hc]);
-      destruct q1, q2; reflexivity.
-    + intros q a _. destruct q; reflexivity.
-  - reflexivity.
+  split; [|split; [|split]].
   - split.
     + constructor; [simpl; intros [E|[]]; discriminate|constructor; [simpl; tauto|constructor]].
     + simpl. intros c [<-|[<-|[]]]; repeat constructor.
   - intros w i j _ _. change ((if Nat.eqb i j then 1%Z else 0%Z) = (if Nat.eqb j i then 1%Z else 0%Z)). now rewrite Nat.eqb_sym.
+  - simpl. repeat split; repeat constructor. discriminate.
+  - simpl. reflexivity.
 Qed.
 
 Print Assumptions C01_bosonic_rotation_is_phase_space.
@@ -326,13 +271,6 @@ Print Assumptions C01_bosonic_channel_means.
 Print Assumptions C01_bosonic_readout_xp.
 Print Assumptions C01_bosonic_xp_permutations_inverse.
 Print Assumptions C01_bosonic_reorder_roundtrip.
-Print Assumptions C01_gauss_bosonic_agree_rotation.
-Print Assumptions C01_gauss_bosonic_agree_squeeze.
-Print Assumptions C01_gauss_bosonic_agree_beamsplitter.
-Print Assumptions C01_gauss_bosonic_agree_displace.
-Print Assumptions C01_gauss_bosonic_agree_loss.
-Print Assumptions C01_gauss_bosonic_agree_thermal_loss.
-Print Assumptions C01_gauss_bosonic_agree_init_thermal.
 Print Assumptions C05_bosonic_spectators.
 Print Assumptions C05_bosonic_spectators_rotation.
 Print Assumptions C05_bosonic_spectators_squeeze.
